@@ -281,7 +281,7 @@ impl<A: OneApi> OneInner<A> {
             self.slots.regs(&mut regs);
             let api = &self.api;
             let slots = &self.slots;
-            self.view = inspect_and_check(ctx, Shape::List, regs, &mut |v| api.inspect(v), &mut |r| slots.node_info(r.slot as usize));
+            self.view = inspect_and_check(ctx, Shape::List, regs, &mut |v| api.inspect(v), &mut |r| slots.node_info(r.slot as usize), &|_, i| i.state == 1);
             // C11: the channel is closed / fulfilled exactly when the model says so
             let closed = self.view.prim.flag;
             let m = self.model;
